@@ -698,7 +698,8 @@ impl Expression {
                                         if next == '}' && count > 0 {
                                             break;
                                         }
-                                        let Some(x) = next.to_digit(16).filter(|_| count < 6) else {
+                                        // (any number of leading zeros; the value is what is limited)
+                                        let Some(x) = next.to_digit(16).filter(|_| v <= 0x10FFFF) else {
                                             ps.add_warning(
                                                 ParseErrorKind::IllegalEscapeSequence,
                                                 pos..ps.position(),
@@ -721,15 +722,28 @@ impl Expression {
                                         v = v * 16 + x;
                                     }
                                 }
-                                // a surrogate pair written as two escapes is one character
-                                if next == 'u' && !braced && (0xD800..0xDC00).contains(&v) {
+                                // a surrogate pair written as two escapes (of either form) is one character
+                                if next == 'u' && (0xD800..0xDC00).contains(&v) {
                                     let low = ps.try_parse(|ps| {
                                         if ps.next()? != '\\' || ps.next()? != 'u' {
                                             return None;
                                         }
                                         let mut low: u32 = 0;
-                                        for _ in 0..4 {
-                                            low = low * 16 + ps.next()?.to_digit(16)?;
+                                        if ps.peek::<0>() == Some('{') {
+                                            ps.next(); // '{'
+                                            let mut count = 0;
+                                            loop {
+                                                let next = ps.next()?;
+                                                if next == '}' && count > 0 {
+                                                    break;
+                                                }
+                                                low = low * 16 + next.to_digit(16).filter(|_| low <= 0xFFFF)?;
+                                                count += 1;
+                                            }
+                                        } else {
+                                            for _ in 0..4 {
+                                                low = low * 16 + ps.next()?.to_digit(16)?;
+                                            }
                                         }
                                         (0xDC00..0xE000).contains(&low).then_some(low)
                                     });
